@@ -28,7 +28,9 @@
     extern values (name, visibility, last address, type bound by the scoping rules); nothing else
     in the file is a [get_*] function ([C14_extern_accessors_no_other]).
     What the model cannot exhibit (glob, directories, the actual writes) is covered by running the
-    real [pyxis::build] into a fresh directory and listing it. *)
+    real [pyxis::build] into a fresh directory and listing it.
+    REFUTED ON THE MODEL without collision_free (RefutedWitnesses*.v; open finding F4b):
+    [C14_vftable_named_type_replaced_refuted_F4b] -- the declared item <T>Vftable is not emitted; the generated table is. *)
 From Coq Require Import List NArith ZArith Bool String Permutation.
 From PyxisModel Require Import Base Sexp Grammar SemTypes Registry Sem SemLemmas Emit EmitLemmas.
 Import ListNotations.
@@ -36,6 +38,8 @@ Import ListNotations.
 From PyxisModel Require EmitReaders EmitFinal FilesInput FilesRead FilesWhole.
 
 From PyxisModel Require EmitAccessors EmitExternOnce.
+
+From PyxisModel Require RefutedInputs RefutedWitnessesOrder RefutedWitnessesEmit RefutedWitnessesFn.
 
 Theorem C14_one_file_per_module : forall st files,
   write_all st = Ok files ->
@@ -188,3 +192,33 @@ Theorem C14_extern_accessors_no_other :
       name = out_path k /\ FilesWhole.file_ok gm f /\ EmitExternOnce.extern_file_ok (st_reg st) k gm f.
 Proof. exact EmitExternOnce.extern_accessors_no_other. Qed.
 Print Assumptions C14_extern_accessors_no_other.
+
+Theorem C14_vftable_named_type_replaced_refuted_F4b :
+  exists (st0 st : sstate) (files : RefutedInputs.files_t),
+      RefutedInputs.built RefutedWitnessesOrder.f4b_sched 8 RefutedInputs.f4b_mods st0 st files /\
+      WholeBuild.collision_freeb (st_reg st0) = false /\
+      ~ WholeBuild.collision_free (st_reg st0) /\
+      option_map it_state (reg_get (st_reg st0) RefutedWitnessesOrder.p_FooVftable) =
+      Some (Unresolved RefutedWitnessesOrder.f4b_user_def) /\
+      reg_get (st_reg st) RefutedWitnessesOrder.p_FooVftable <> None /\
+      reg_get (st_reg st) RefutedWitnessesOrder.p_FooVftable =
+      RefutedWitnessesOrder.generated_vftable_item st RefutedWitnessesOrder.p_Foo Private /\
+      RefutedInputs.size_at st RefutedWitnessesOrder.p_FooVftable = Some 8%N /\
+      option_map FilesRead.file_decls (RefutedInputs.file_named files "a.rs") =
+      Some
+        [("struct"%string, "Foo"%string); ("struct"%string, "FooVftable"%string);
+         ("struct"%string, "User"%string)] /\
+      option_map (map EmitReaders.ef_name)
+        (RefutedInputs.thenr (RefutedInputs.struct_of files "a.rs" "FooVftable")
+           EmitReaders.struct_fields) = Some ["f"%string] /\
+      RefutedInputs.size_at st RefutedWitnessesOrder.p_User = Some 16%N /\
+      option_map (map (fun r : region => (r_name r, r_type r)))
+        (RefutedInputs.regions_at st RefutedWitnessesOrder.p_User) =
+      Some [(Some "x"%string, TRaw RefutedWitnessesOrder.p_FooVftable)] /\
+      RefutedInputs.thenr (RefutedInputs.struct_of files "a.rs" "User")
+        (EmitLayout.emitted_struct_layout
+           (map (EmitLayout.type_sa (st_reg st)) [TRaw RefutedWitnessesOrder.p_FooVftable])) =
+      Some ([("x"%string, 0%N)], 8%N, 8%N) /\
+      RefutedInputs.size_check_of files "a.rs" "User" = Some (16%N, 16%N).
+Proof. exact RefutedWitnessesOrder.C14_C02_vftable_named_type_replaced_refuted_F4b. Qed.
+Print Assumptions C14_vftable_named_type_replaced_refuted_F4b.
